@@ -1181,6 +1181,9 @@ def check(ctx, prop, also=()):
                 continue
             if ctx.ensures(k, pat("re:(?:^|::|<| )%s$" % re.escape(mc)), 2):
                 continue
+            mw = re.match(r"^ByteOrder::write_([ui]\d+)$", mc)
+            if mw and ctx.ensures(k, pat("re:<impl %s>::to_[bl]e_bytes$" % mw.group(1)), 2):
+                continue  # std respelling of the same encoder (`BigEndian::write_u32(&mut b, n)` = `b = n.to_be_bytes()`); the key never named the byte order
             if b.get("closure") and roles.get(role.split("@")[0]):
                 par = roles[role.split("@")[0]]
                 pm = {_short_callee(x) for x in cs.get(par)["must"]} | {_short_callee(x) for cl in _cluster(F, par)[0] for x in cs.get(cl)["must"]}
